@@ -422,7 +422,7 @@ func registerType(tov reflect.Type) error {
 			n := int(binary.BigEndian.Uint32(packet[:4]))
 			packet = packet[4:]
 
-			if n > len(packet) {
+			if n > len(packet) && itemType.Size() > 0 {
 				return nil, nil, fmt.Errorf("incorrect data length %d", n)
 			}
 
@@ -433,7 +433,9 @@ func registerType(tov reflect.Type) error {
 				value.Set(x)
 			}
 
-			if n == 0 {
+			if n == 0 || itemType.Size() == 0 {
+				// zero-size items ([0]T, empty struct) take no bytes on the wire
+				// and have a single value: nothing to decode
 				return value, packet, nil
 			}
 
@@ -491,7 +493,8 @@ func registerType(tov reflect.Type) error {
 
 		fdec := func(value *reflect.Value, packet []byte, state *stateDecode) (*reflect.Value, []byte, error) {
 			if len(packet) == 0 {
-				if tov.Len() == 0 {
+				if tov.Size() == 0 {
+					// no items, or zero-size items: nothing on the wire
 					return value, packet, nil
 				}
 				return nil, nil, errDecodeEOD
@@ -614,7 +617,13 @@ func registerType(tov reflect.Type) error {
 				return value, packet, nil
 			}
 
-			if n > len(packet) {
+			if zeroSize := typeKey.Size() == 0 && typeValue.Size() == 0; zeroSize {
+				// a zero-size key type has a single value: at most one entry,
+				// and it takes no bytes on the wire
+				if n > 1 {
+					return nil, nil, fmt.Errorf("incorrect data length")
+				}
+			} else if n > len(packet) {
 				return nil, nil, fmt.Errorf("incorrect data length")
 			}
 
